@@ -24,6 +24,7 @@ type connPool struct {
 	active      int
 	mu          sync.Mutex
 	idleTimeout time.Duration
+	retired     bool // set by Shutdown (under mu) once the pool is detached from the map
 }
 
 // pooledConn wraps a connection with metadata
@@ -98,6 +99,13 @@ func (p *WebSocketPool) Put(backend string, conn net.Conn) bool {
 	p.mu.Unlock()
 
 	pool.mu.Lock()
+	for pool.retired {
+		// Shutdown detached this per-backend pool between the lookup above and the
+		// lock: a connection appended to it would never be closed or handed out again
+		pool.mu.Unlock()
+		pool = p.getOrCreatePool(backend)
+		pool.mu.Lock()
+	}
 	defer pool.mu.Unlock()
 
 	if pool.active > 0 {
@@ -117,6 +125,23 @@ func (p *WebSocketPool) Put(backend string, conn net.Conn) bool {
 	})
 
 	return true
+}
+
+// getOrCreatePool returns the current per-backend pool, creating it if needed
+func (p *WebSocketPool) getOrCreatePool(backend string) *connPool {
+	p.mu.Lock()
+	defer p.mu.Unlock()
+
+	pool, exists := p.pools[backend]
+	if !exists {
+		pool = &connPool{
+			backend:     backend,
+			idle:        make([]pooledConn, 0, p.maxIdle),
+			idleTimeout: p.idleTimeout,
+		}
+		p.pools[backend] = pool
+	}
+	return pool
 }
 
 // Close closes a connection and decrements active count
@@ -235,6 +260,7 @@ func (p *WebSocketPool) Shutdown() {
 			_ = pc.conn.Close() // Best effort close, ignore error
 		}
 		pool.idle = nil
+		pool.retired = true
 		pool.mu.Unlock()
 
 		logging.L().Info().
